@@ -13,7 +13,9 @@ A `Could not log messages to database` warning is a completeness violation.
 The widened part of the tie lives in `harness/lib/c11x.py` (case families `multi`: several producers behind the client
 mutex incl. the real tester-present worker, cancellations of single tasks, injected write faults; `tables`: programs of
 DBHandler API calls, all tables read back, foreign keys; `life`: a real UDSScanner through entry_point(), the
-scanner-level implicit-logging switch); those cases run first.
+scanner-level implicit-logging switch); those cases run first.  `harness/lib/c11s.py` adds the family `slowdb`: a slow or
+contended database at shutdown (another sqlite3 connection holds the write lock of the file while exchanges are logged and
+disconnect() is called - real time, evaluated concurrently in own processes; writer latencies in virtual time).
 """
 from __future__ import annotations
 
@@ -41,6 +43,7 @@ ASSUMPTIONS = [
     "wall-clock timestamps (datetime.now) are non-decreasing during a run",
     "a call of ECU.request that is cancelled while it waits for the client mutex leaves a row (no reply, no exception) although nothing was transmitted: modelled as the code does it (Call.granted = false), not counted as a violation - the property speaks about requests that were put on the wire",
     "write faults are OperationalErrors raised by execute / commit of the writer task, any finite number per row (injected into the real connection object); faults of the statements the run task executes itself (insert_run_meta, insert_scan_run, ...: no retry in the code, the exception reaches the caller) and recurring faults (join() never returns: theorem join_blocks_while_writes_fail, the code's own TODO) are outside the tie",
+    "a slow database: the other connection holds the write lock for 0.2 .. 7.5 s (quick tier: 0.4 / 2.5 / 6.5 s), below the handler's busy_timeout of 10 s, so no statement of the writer fails - it waits inside sqlite; writer latencies are 1 ms .. 30 s of virtual time per execute / commit with backlogs of 1 .. 80 rows; a lock held longer than busy_timeout turns into OperationalErrors (the fault dimension above); each real-time case is bounded by a wall-clock watchdog (hold + 25 s) and a process-level one",
     "the writer task has had its first step before disconnect() (in the lifecycle insert_run_meta follows connect() and suspends); the tables error_log / ecu, which DBHandler never writes, are outside the model",
 ]
 
@@ -345,8 +348,13 @@ async def _body(env, case, path, out):
     ecu.db_handler = db
     obs = out["obs"]
     crash = case.get("crash")
+    hook = out.get("hook")      # harness/lib/c11s.py: a slow / contended database (lock holder, writer latencies)
+    if hook:
+        await hook("start", 0, db)
     try:
         for i, p in enumerate(case["plans"]):
+            if hook:
+                await hook("before", i, db)
             if crash and crash["how"] in ("raise", "cancel") and crash["after"] == i:
                 if crash["how"] == "raise":
                     raise _Boom("scanner code failed")
@@ -418,24 +426,37 @@ async def _body(env, case, path, out):
                 return await orig()
 
             q.join = join
+        if hook:
+            await hook("end", len(case["plans"]), db)
         await db.disconnect()
 
 
-def run_case(case):
-    """-> dict(obs, rows, warnings, end)"""
+def run_case(case, hook=None, real_time=None, horizon=None):
+    """-> dict(obs, rows, warnings, end).  `hook(stage, i, db)`: see `_body`; `real_time` = wall-clock watchdog in seconds:
+    the case runs on a plain (real-time) loop instead of the virtual one; `horizon`: virtual-time bound of the case"""
     env = _env()
     rec_e, rec_h = _Rec(), _Rec()
     env["E"].logger = rec_e
     env["H"].logger = rec_h
-    out = {"obs": [], "db": None, "run": None}
+    out = {"obs": [], "db": None, "run": None, "hook": (lambda *a: hook(*a, path)) if hook else None}
     end = "ok"
     with tempfile.TemporaryDirectory(prefix="c11-", dir=os.environ.get("C11_TMP") or None) as d:
         path = Path(d) / "scan.sqlite"
-        loop = VLoop()
+        if real_time:
+            loop = asyncio.new_event_loop()
+        else:
+            loop = VLoop()
+            loop.horizon = horizon
         asyncio.set_event_loop(loop)
         try:
             try:
-                loop.run_until_complete(_body(env, case, path, out))
+                if real_time:
+                    try:
+                        loop.run_until_complete(asyncio.wait_for(_body(env, case, path, out), real_time))
+                    except asyncio.TimeoutError:
+                        end = f"watchdog: the run (disconnect included) did not return within {real_time} s"
+                else:
+                    loop.run_until_complete(_body(env, case, path, out))
             except asyncio.CancelledError:
                 end = "cancelled"
             except _Boom:
@@ -671,6 +692,9 @@ def _shrink(case, idx, bad_key):
 def _eval(item):
     """worker: run one case against the real stack, judge it, shrink a failing one"""
     label, case = item
+    if case.get("kind") == "slowdb":
+        from lib import c11s
+        return c11s.evaluate(label, case)
     if case.get("kind"):
         from lib import c11x
         return c11x.evaluate(label, case)
@@ -687,6 +711,9 @@ def _eval(item):
 
 
 def book(ctx, label, case, res, j):
+    if case.get("kind") == "slowdb":
+        from lib import c11s
+        return c11s.book(ctx, label, case, res, j)
     if case.get("kind"):
         return book_x(ctx, label, case, res, j)
     ctx.ev()
@@ -740,7 +767,8 @@ def book_x(ctx, label, case, res, j):
 
 def compare_model(ctx, pending):
     """pending: list of (case, res) that satisfied the property; the model must leave the same rows"""
-    from lib import c11x
+    from lib import c11s, c11x
+    c11s.compare(ctx, [(c, r) for (c, r) in pending if c.get("kind") == "slowdb"])
     c11x.compare_multi(ctx, [(c, r) for (c, r) in pending if c.get("kind") == "multi"])
     c11x.compare_tables(ctx, [(c, r) for (c, r) in pending if c.get("kind") == "tables"])
     c11x.compare_life(ctx, [(c, r) for (c, r) in pending if c.get("kind") == "life"])
@@ -1151,6 +1179,9 @@ def gen_cases(ctx):
     cases += c11x.gen_life(ctx, K)
     cases += c11x.gen_multi(ctx, K)
     cases += c11x.gen_tables(ctx)
+    # 0a. a slow database: writer latencies in virtual time (the lock cases run in real time: see run())
+    from lib import c11s
+    cases += c11s.gen_slow(ctx, K)
     # 0b. raw requests with arbitrary bytes; walks over the state-driving replies
     cases += gen_raw(ctx, K)
     cases += gen_state_walks(ctx, K)
@@ -1240,6 +1271,13 @@ def run(ctx):
     _state_corr(ctx)
     _attrs_corr(ctx)
     _stored_corr(ctx)
+    from lib import c11s
+    import multiprocessing as mp
+    # a database locked by another connection at shutdown: real waiting (up to ~7 s per case), so these cases get their own
+    # processes and run concurrently with everything below
+    lock_cases = c11s.gen_lock(ctx, _env()["K"])
+    lock_pool = mp.get_context("fork").Pool(min(len(lock_cases), ctx.pick(3, 6)))
+    lock_async = [(lc, lock_pool.apply_async(_eval, (lc,))) for lc in lock_cases]
     cases = gen_cases(ctx)
     ctx.exhaustive_parts.append(f"every request kind ({len(_env()['K'])}) x every outcome class ({len(OUTCOMES)}) as a single-exchange history")
     ctx.exhaustive_parts.append("cancellation at every write / read await of multi-await exchanges (pending loop, retries)")
@@ -1247,10 +1285,10 @@ def run(ctx):
     ctx.exhaustive_parts.append("UDSScanner through entry_point(): the switch set in the constructor (5 patterns) x ping x properties x tester-present x ecu_reset")
     ctx.exhaustive_parts.append("every single-row write-fault pattern (execute / commit, 1..2 failures) on a burst of 3 queued rows")
     ctx.exhaustive_parts.append("the lifecycle order of DBHandler API calls (with and without discovery) cancelled at every awaited statement")
+    ctx.notes["slow_database_lock_holds_s"] = [c["hold"] for _, c in lock_cases]
     ctx.exhaustive_parts.append("cancellation requested (not yet delivered) at every read of the last exchange of small histories, and at the end of bursts long enough to fill the write queue if it had a capacity")
     budget = ctx.pick(60, 780)
     pending = []
-    import multiprocessing as mp
 
     workers = int(os.environ.get("C11_WORKERS", ctx.pick(8, 12)))
     pool = mp.get_context("fork").Pool(workers)
@@ -1266,11 +1304,35 @@ def run(ctx):
     finally:
         pool.terminate()
         pool.join()
+    try:
+        for (label, case), a in lock_async:
+            try:
+                label, case, res, j = a.get(timeout=case["hold"] + 2 * c11s.LOCK_WATCHDOG_EXTRA + (0 if ctx.quick else 120))
+            except mp.TimeoutError:
+                ctx.ev()
+                ctx.disagree("c11:db-locked-by-another-connection:no-return", "the case did not return (process-level watchdog): "
+                             f"database locked by another connection for {case['hold']} s while disconnect() is called", case,
+                             impl="no return", model="disconnect() returns after the lock is released, all rows written",
+                             spec_violated=True, site="DBHandler.disconnect")
+                continue
+            if book(ctx, label, case, res, j):
+                pending.append((case, res))
+    finally:
+        lock_pool.terminate()
+        lock_pool.join()
     compare_model(ctx, pending)
 
 
 def replay(ctx, rec):
     case = rec.get("case") or rec
+    if case.get("kind") == "slowdb":
+        from lib import c11s
+        _env()
+        res = c11s.run_case(case)
+        j = c11s.judge(res, case)
+        print(json.dumps({"rows": res["rows"], "warnings": res["warnings"], "end": res["end"],
+                          "expected_rows": expected_rows(res["obs"]), "verdict": j}, indent=1, default=str))
+        return 1 if j is not None else 0
     if case.get("kind") in ("multi", "tables", "life"):
         from lib import c11x
         _env()
@@ -1319,6 +1381,9 @@ MANIFEST = {
                    "byte string handed to a raw entry point (stored_request_is_wire, over the dynamic parser of C01); the level unlocked "
                    "by sendKey survives a session read-back that reports the held session and is dropped by one that reports another "
                    "(readback_same_session_keeps_state, readback_other_session_resets, level_survives_same_session_readback). "
+                   "(6) A slow database at shutdown: disconnect() makes the whole backlog durable however long the consumer needs; a "
+                   "wait bounded to b more rows is complete iff the backlog is at most b, and for every b a history loses rows "
+                   "(disconnect_writes_whole_backlog, bounded_sync_complete_iff, bounded_sync_loses_rows). "
                    "Tied to the code by a correspondence run of the real ECU "
                    "+ DBHandler + sqlite file: every request kind x outcome class, cancellation at every await, seeded "
                    "histories; 3 concurrent tasks incl. the real tester-present worker over scripted latencies with cancellations "
@@ -1326,7 +1391,9 @@ MANIFEST = {
                    "file, all tables read back + PRAGMA foreign_key_check; a real UDSScanner through entry_point(); raw requests with "
                    "arbitrary bytes (well-formed, truncated, over-long, odd-length, every service / sub-function id of the codec) through "
                    "send_raw / request(RawRequest); walks over the state-driving replies with the recorded state judged against the "
-                   "model's fold."),
+                   "model's fold; histories logged and closed while another sqlite3 connection holds the write lock of the file for "
+                   "0.2 .. 7.5 s (real time) and with writer latencies of 1 ms .. 30 s per statement (virtual time), with and without "
+                   "a cancelled / failing run."),
     "level_note": ("Trusted: Lean kernel, sqlite/aiosqlite/file system durability, asyncio.Queue / asyncio.Lock contracts, wall "
                    "clock monotonicity, the harness. The inner retry loop's outcome is an input of the model (C04 owns it). The "
                    "atomicity of the finally-block, the unbounded queue, the shape of the writer's retry loop, the awaited steps of "
